@@ -2,8 +2,9 @@ SPEC = {
     "corr": [{"kind": "ipfix-trunc", "quick": 60000, "thorough": 3000000},
              {"kind": "nf9-trunc", "quick": 60000, "thorough": 3000000}],
     "rule": "sampled well-formed messages (templates announced beforehand by the same exporter; 1..4 sets of 1..4 records "
-            "of any positive length, padding of 0 .. min(shortest record - 1, 7) octets) x an undecodable set (unknown template id, reserved set id, or data for a "
-            "template naming an element missing from the model; random body of 0..36 octets) inserted at EVERY set boundary "
+            "of any positive length, padding of 0 .. min(shortest record - 1, 7) octets) x an undecodable set (unknown template id, reserved set id - for IPFIX also the unused id 1 -, data for a "
+            "template naming an element missing from the model, or data for a template without fields, announced as a field-count-0 "
+            "record in front of another record of its template set; random body of 0..36 octets) inserted at EVERY set boundary "
             "x truncation at EVERY octet offset 0..len; oracle on the real decoder's own output: records(inserted) == "
             "records(full), records(truncated) is a prefix of records(full); non-trivial = the implementation emitted at "
             "least one record; distinct = distinct case line",
@@ -26,11 +27,15 @@ META = {
             "reader over the set: cache and records untouched, error slot non-fatal), decodeSet_skips_unknownElem (the same for a "
             "data set with a cached template and a body of at least minRecLen octets - one shortest record, so that the record loop is "
             "entered (padding repair 3c79378; formerly > 4 octets) - on which the record decoder, run on the body alone, stops at an "
-            "element missing from the information model), outer_skips / outer_skips_tail (the outer loop continues on the rest as "
+            "element missing from the information model), Ipfix.decodeSet_skips_noFields (F30 repair: the same for a data set whose cached "
+            "template has no field specifier at all - a template record with field count 0 - and for set id 1, any body: the error slot "
+            "holds the now non-fatal emptyRec or nothing; before the repair Decode returned (nil, 'failed to decodeData') and the records of "
+            "every other set were lost; NetFlow v9 reports zeroRec), outer_skips / outer_skips_tail (the outer loop continues on the rest as "
             "if the set were absent), outer_locality (what a clean prefix decodes to does not depend on what follows) and "
             "decode_skips: for hdr ++ pre ++ u ++ post vs hdr ++ pre ++ post, where pre decodes on its own cleanly to its exact "
-            "end and u is skipped at the cache reached there (Skipped; instances skipped_of_undecodable, skipped_of_unknownElem), "
-            "the records, the resulting cache and the fatal-error outcome are equal. The models are tied to ipfix/decoder.go and "
+            "end and u is skipped at the cache reached there (Skipped; instances skipped_of_undecodable, skipped_of_unknownElem, Ipfix.skipped_of_noFields), "
+            "the records, the resulting cache and the fatal-error outcome are equal. nonfatal_reviewed: the declaration of nonfatalError "
+            "in both decoders and every construction of one (= the models' non-fatal classes) are the reviewed inventory. The models are tied to ipfix/decoder.go and "
             "netflow/v9/decoder.go by running both on every insertion position and every truncation offset of sampled "
             "well-formed messages, with a model-independent prefix/equality oracle on the real decoder's output.",
     "ref": "DESIGN.md §6 C09",
